@@ -47,7 +47,7 @@ func (in *Interp) visit(fr *frame, instr ssa.Instruction) {
 	case *ssa.MultiConvert:
 		fr.env[x] = in.conv(x.Type(), x.X.Type(), fr.get(x.X))
 	case *ssa.SliceToArrayPointer:
-		s := fr.get(x.X).(SliceV)
+		s := in.conc(fr.get(x.X).(SliceV))
 		at := x.Type().(*types.Pointer).Elem().Underlying().(*types.Array)
 		n := int(at.Len())
 		if s.Len < n {
@@ -565,6 +565,7 @@ func (in *Interp) conv(dst, src types.Type, v Value) Value {
 				}
 				return StrV{S: string(rune(int64(x.Val)))}
 			case SliceV:
+				x = in.conc(x)
 				if sl, ok := us.(*types.Slice); ok {
 					if eb, ok := under(sl.Elem()).(*types.Basic); ok && eb.Kind() == types.Uint8 {
 						return in.mkStr(in.sliceBytes(x))
@@ -647,6 +648,9 @@ func (in *Interp) makeSliceOp(fr *frame, x *ssa.MakeSlice) Value {
 	}
 	esz := in.eng.Sizes.Sizeof(elem)
 	in.allocCheck(cp, esz, "make")
+	if !ln.IsConst() && in.eng.LazySlices {
+		return SliceV{Arr: in.newLazyArray(elem), SLen: ln}
+	}
 	n := in.Concretize(ln, in.maxLen, "make len")
 	cc := n
 	if cp != ln {
@@ -708,6 +712,9 @@ func (in *Interp) sliceOp(fr *frame, x *ssa.Slice) Value {
 	isStr := false
 	switch v := xv.(type) {
 	case SliceV:
+		if v.SLen != nil {
+			return in.sliceOpSym(fr, x, v)
+		}
 		base = v
 		ln, cp = v.Len, v.Cap
 	case StrV:
@@ -749,6 +756,10 @@ func (in *Interp) sliceOp(fr *frame, x *ssa.Slice) Value {
 		cb = in.maxLen
 	}
 	l := in.Concretize(lo, cb, "slice low")
+	if !isStr && !hi.IsConst() && in.eng.LazySlices && base.Arr != nil && x.Max == nil {
+		// symbolic upper bound: keep the length symbolic (bounds were checked above)
+		return SliceV{Arr: base.Arr, Off: base.Off + l, SLen: c.BVSub(hi, c.BV(uint64(l), 64)), Cap: base.Cap - l}
+	}
 	h := in.Concretize(hi, cb, "slice high")
 	m := limit
 	if x.Max != nil {
@@ -764,6 +775,45 @@ func (in *Interp) sliceOp(fr *frame, x *ssa.Slice) Value {
 		return SliceV{Nil: base.Nil}
 	}
 	return SliceV{Arr: base.Arr, Off: base.Off + l, Len: h - l, Cap: m - l}
+}
+
+// sliceOpSym slices a symbolic-length slice.
+func (in *Interp) sliceOpSym(fr *frame, x *ssa.Slice, v SliceV) Value {
+	c := in.ctx
+	lo := c.BV(0, 64)
+	if x.Low != nil {
+		lo = in.asIndex(fr.get(x.Low), x.Low.Type())
+	}
+	hi := v.SLen
+	if x.High != nil {
+		hi = in.asIndex(fr.get(x.High), x.High.Type())
+	}
+	capT := v.SLen
+	if v.Cap > 0 {
+		capT = c.BV(uint64(v.Cap), 64)
+	}
+	mx := capT
+	if x.Max != nil {
+		mx = in.asIndex(fr.get(x.Max), x.Max.Type())
+	}
+	ok := c.And(c.Sle(c.BV(0, 64), lo), c.Sle(lo, hi), c.Sle(hi, mx), c.Sle(mx, capT))
+	if !in.Branch(ok) {
+		in.throwRuntime("slice bounds out of range")
+	}
+	l := in.Concretize(lo, in.maxLen, "slice low")
+	ncap := 0
+	if v.Cap > 0 {
+		ncap = v.Cap - l
+	}
+	if x.High == nil || !hi.IsConst() {
+		return SliceV{Arr: v.Arr, Off: v.Off + l, SLen: c.BVSub(hi, c.BV(uint64(l), 64)), Cap: ncap}
+	}
+	h := int(hi.Val)
+	in.ensureArr(v.Arr, v.Off+h)
+	if ncap == 0 {
+		ncap = h - l
+	}
+	return SliceV{Arr: v.Arr, Off: v.Off + l, Len: h - l, Cap: ncap}
 }
 
 func onlyLoadsAndStores(x *ssa.IndexAddr) bool {
@@ -806,17 +856,26 @@ func (in *Interp) indexAddr(fr *frame, x *ssa.IndexAddr) Value {
 		panic(unsupported{fmt.Sprintf("IndexAddr on %T", xv)})
 	}
 	idx := in.asIndex(fr.get(x.Index), x.Index.Type())
+	if s.SLen != nil {
+		if !in.Branch(c.Ult(idx, s.SLen)) {
+			in.throwRuntime("index out of range (symbolic length)")
+		}
+		if idx.IsConst() {
+			return in.sliceElemPtr(s, int(idx.Val))
+		}
+		s = in.conc(s)
+	}
 	if !in.Branch(c.Ult(idx, c.BV(uint64(s.Len), 64))) {
 		in.throwRuntime(fmt.Sprintf("index out of range [%s] with length %d", in.idxText(idx), s.Len))
 	}
 	if idx.IsConst() {
-		return s.elemPtr(int(idx.Val))
+		return in.sliceElemPtr(s, int(idx.Val))
 	}
 	if s.Arr.Elems != nil && s.Len <= in.eng.MaxIte && onlyLoadsAndStores(x) && isScalarType(s.Arr.ElemT) {
 		return SymElemPtr{S: s, Idx: idx}
 	}
 	i := in.Concretize(idx, s.Len-1, "index")
-	return s.elemPtr(i)
+	return in.sliceElemPtr(s, i)
 }
 
 func isScalarType(t types.Type) bool {
@@ -1069,7 +1128,7 @@ func (in *Interp) callBuiltin(b *ssa.Builtin, args []Value, pos token.Pos) Value
 	case "len":
 		switch x := args[0].(type) {
 		case SliceV:
-			return c.BV(uint64(x.Len), 64)
+			return in.lenTerm(x)
 		case StrV:
 			return c.BV(uint64(x.Len()), 64)
 		case *MapV:
@@ -1090,6 +1149,9 @@ func (in *Interp) callBuiltin(b *ssa.Builtin, args []Value, pos token.Pos) Value
 	case "cap":
 		switch x := args[0].(type) {
 		case SliceV:
+			if x.SLen != nil && x.Cap == 0 {
+				return x.SLen
+			}
 			return c.BV(uint64(x.Cap), 64)
 		case ArrayV:
 			return c.BV(uint64(len(x)), 64)
@@ -1099,11 +1161,12 @@ func (in *Interp) callBuiltin(b *ssa.Builtin, args []Value, pos token.Pos) Value
 			return c.BV(uint64(x.Cap), 64)
 		}
 	case "append":
-		s := args[0].(SliceV)
+		s := in.conc(args[0].(SliceV))
 		var add []Value
 		var elemT types.Type
 		switch y := args[1].(type) {
 		case SliceV:
+			y = in.conc(y)
 			for i := 0; i < y.Len; i++ {
 				add = append(add, in.sliceGet(y, i))
 			}
@@ -1152,6 +1215,26 @@ func (in *Interp) callBuiltin(b *ssa.Builtin, args []Value, pos token.Pos) Value
 		return out
 	case "copy":
 		dst := args[0].(SliceV)
+		if y, ok := args[1].(SliceV); ok && y.SLen != nil {
+			args[1] = in.conc(y)
+		}
+		if dst.SLen != nil {
+			// copy into a symbolic-length destination from a k-element source:
+			// either the destination holds all k, or it is shorter (case-split)
+			k := 0
+			switch y := args[1].(type) {
+			case SliceV:
+				k = y.Len
+			case StrV:
+				k = y.Len()
+			}
+			if in.Branch(c.Sle(c.BV(uint64(k), 64), dst.SLen)) {
+				in.ensureArr(dst.Arr, dst.Off+k)
+				dst = SliceV{Arr: dst.Arr, Off: dst.Off, Len: k, Cap: k}
+			} else {
+				dst = in.conc(dst)
+			}
+		}
 		var src []Value
 		switch y := args[1].(type) {
 		case SliceV:
@@ -1177,7 +1260,7 @@ func (in *Interp) callBuiltin(b *ssa.Builtin, args []Value, pos token.Pos) Value
 		}
 		return TupleV{}
 	case "panic":
-		panic(goPanic{val: args[0], site: in.site(), msg: "panic: " + in.panicText(args[0])})
+		panic(in.mkPanic(args[0], "panic: "+in.panicText(args[0])))
 	case "recover":
 		// called from a deferred function: the panicking frame is the caller of
 		// the function containing the recover call
@@ -1225,6 +1308,7 @@ func (in *Interp) callBuiltin(b *ssa.Builtin, args []Value, pos token.Pos) Value
 				x.Entries = nil
 			}
 		case SliceV:
+			x = in.conc(x)
 			for i := 0; i < x.Len; i++ {
 				in.sliceSet(x, i, in.zero(x.Arr.ElemT))
 			}
